@@ -113,13 +113,14 @@ type world = {
   mutable last_pkt : int list;
   mutable last_pdu : n list;
   mutable last_ctx : ctxfrag option;
+  mutable fresh : bool;
   mutable dec : dstate option;
   mutable mgr : n -> mand;
   mutable nprov : int;
   mutable owned : sbuf list;
   mutable held : (dctx * sbuf) option;
 }
-let new_world () = { enc = enc_new; last_pkt = []; last_pdu = []; last_ctx = None; dec = None;
+let new_world () = { enc = enc_new; last_pkt = []; last_pdu = []; last_ctx = None; fresh = false; dec = None;
                      mgr = mgr_simple; nprov = 0; owned = []; held = None }
 
 let enc_state_str (s : enc_state) : string =
@@ -151,7 +152,7 @@ let enc_result (w : world) (r : ((enc_state * byte list) * enc_result) res) (bef
        let k = min nn la in
        let tail = List.length before = la && drop k before = drop k after in
        let pkt = take k after in
-       w.last_pkt <- pkt; w.last_pdu <- pdu; w.last_ctx <- ctx;
+       w.last_pkt <- pkt; w.last_pdu <- pdu; w.last_ctx <- ctx; w.fresh <- true;
        Printf.sprintf "%s pkt=%s tail=%d%s" head (hex pkt) (if tail then 1 else 0) st)
 
 let md_str (m : dmeta) : string =
@@ -314,7 +315,9 @@ let apply (w : world) (line : string) : string =
      | Inl b -> w.owned <- b :: w.owned; "ok " ^ sbuf_str b
      | Inr e -> "err " ^ memerr_str e)
   | "DRESET" -> w.dec <- Some (dec_reset (getdec w)); "ok"
-  | "DECAP" | "DECAPL" ->
+  | "DECAPN" when not w.fresh -> "nopkt"
+  | "DECAP" | "DECAPL" | "DECAPN" ->
+    if op = "DECAPN" then w.fresh <- false;
     let bytes = if op = "DECAP" then bytes_tok t.(1) else w.last_pkt @ bytes_tok t.(1) in
     dec_result w (decap default_crc w.mgr (getdec w) (nbytes bytes))
   | "PEEK" | "PEEKL" ->
